@@ -1,4 +1,7 @@
-use super::{full_path_prefix, BoundQuery, Query, QueryValidationError, Selection, SelectionId};
+use super::{
+    full_path_prefix, BoundQuery, Query, QueryValidationError, ResolvedFragmentId, Selection,
+    SelectionId,
+};
 use crate::schema::TypeId;
 
 pub(super) fn validate_typename_presence(
@@ -10,7 +13,12 @@ pub(super) fn validate_typename_presence(
             _ => continue,
         };
 
-        if !selection_set_contains_type_name(fragment.on, &fragment.selection_set, query.query) {
+        if !selection_set_contains_type_name(
+            fragment.on,
+            &fragment.selection_set,
+            query.query,
+            &mut Vec::new(),
+        ) {
             return Err(QueryValidationError::new(format!(
                 "The `{}` fragment uses `{}` but does not select `__typename` on it. graphql-client cannot generate code for it. Please add `__typename` to the selection.",
                 &fragment.name,
@@ -34,7 +42,12 @@ pub(super) fn validate_typename_presence(
             });
 
     for selection in union_and_interface_field_selections {
-        if !selection_set_contains_type_name(selection.1, selection.2, query.query) {
+        if !selection_set_contains_type_name(
+            selection.1,
+            selection.2,
+            query.query,
+            &mut Vec::new(),
+        ) {
             return Err(QueryValidationError::new(format!(
                 "The query uses `{path}` at `{selected_type}` but does not select `__typename` on it. graphql-client cannot generate code for it. Please add `__typename` to the selection.",
                 path = full_path_prefix(selection.0, query),
@@ -50,6 +63,7 @@ fn selection_set_contains_type_name(
     parent_type_id: TypeId,
     selection_set: &[SelectionId],
     query: &Query,
+    visited_fragments: &mut Vec<ResolvedFragmentId>,
 ) -> bool {
     for id in selection_set {
         let selection = query.get_selection(*id);
@@ -57,9 +71,21 @@ fn selection_set_contains_type_name(
         match selection {
             Selection::Typename => return true,
             Selection::FragmentSpread(fragment_id) => {
+                // A fragment that is already being inspected cannot contribute
+                // `__typename`: spread cycles must not recurse forever.
+                if visited_fragments.contains(fragment_id) {
+                    continue;
+                }
+                visited_fragments.push(*fragment_id);
+
                 let fragment = query.get_fragment(*fragment_id);
                 if fragment.on == parent_type_id
-                    && selection_set_contains_type_name(fragment.on, &fragment.selection_set, query)
+                    && selection_set_contains_type_name(
+                        fragment.on,
+                        &fragment.selection_set,
+                        query,
+                        visited_fragments,
+                    )
                 {
                     return true;
                 }
